@@ -1326,6 +1326,28 @@ async fn resume(rd: &mut &[u8]) -> Result<Resumed, ResumeErr> {
     }
 }
 
+/// the NON-matching family's known-protocol entry point on the bytes after the protocol: it must refuse with
+/// UnexpectedProtocol(found) (the version gate lives in decode_with_protocol)
+async fn resume_wrong(rd: &mut &[u8]) -> Result<Resumed, ResumeErr> {
+    let (byte, rl) = decode_raw_header(rd).await.map_err(ResumeErr::V3)?;
+    let proto = Protocol::decode_async(rd).await.map_err(ResumeErr::V3)?;
+    match proto {
+        Protocol::V500 => {
+            let c = v3::Connect::decode_with_protocol(rd, proto)
+                .await
+                .map_err(ResumeErr::V3)?;
+            Ok(Resumed::V3(v3::Packet::Connect(c)))
+        }
+        Protocol::V310 | Protocol::V311 => {
+            let h = v5::Header::new_with(byte, rl).map_err(ResumeErr::V5)?;
+            let c = v5::Connect::decode_with_protocol(rd, h, proto)
+                .await
+                .map_err(ResumeErr::V5)?;
+            Ok(Resumed::V5(v5::Packet::Connect(c)))
+        }
+    }
+}
+
 fn cross_front<F: Fam>(out: &mut String, bytes: &[u8]) {
     let th = three::<F>(bytes);
     out.push_str("block=");
@@ -1373,6 +1395,28 @@ fn op_cross(t: &mut Toks) -> PResult<String> {
     }
     out.push_str(";rused=");
     tok::num(&mut out, rused as u64);
+    out.push_str(";wrong=");
+    let mut rd2: &[u8] = &bytes;
+    let r2 = guard(|| block_on(resume_wrong(&mut rd2)));
+    match r2 {
+        Ok(Ok(Resumed::V3(p))) => {
+            out.push_str("ok v3 ");
+            V3::print(&mut out, &p);
+        }
+        Ok(Ok(Resumed::V5(p))) => {
+            out.push_str("ok v5 ");
+            V5::print(&mut out, &p);
+        }
+        Ok(Err(ResumeErr::V3(e))) => {
+            out.push_str("err ");
+            cm::print_err(&mut out, &e);
+        }
+        Ok(Err(ResumeErr::V5(e))) => {
+            out.push_str("err ");
+            pk5::print_err(&mut out, &e);
+        }
+        Err(p) => panic_str(&mut out, &p),
+    }
     Ok(out)
 }
 
